@@ -88,9 +88,14 @@ def serializer_obligations(ctx, facts, rule=None, scope="all"):
         okc = init[0] == "call" and init[1] == "std::iter::Iterator::collect" and init[2][0][0] == "call" and init[2][0][3] == ibb
         ctx.ob(R("SORT-TAINT"), "serialiser: the iteration is collected into the Vec that is sorted", okc, fn=key, site=srt["site"], detail=nshow(init)[:120])
         h, (nb, it, npath) = next(iter(loops.items()))
-        src = it[2] if it[0] == "var" else it
-        while src[0] == "call" and "into_iter" in src[1]:
-            src = src[2][0]
+        src = it
+        for _ in range(6):
+            if src[0] == "var" and src[1] != vecvar[1] and len(src) > 2:
+                src = src[2]
+            elif src[0] == "call" and ("into_iter" in src[1] or src[1] == "std::iter::Iterator::enumerate"):
+                src = src[2][0]
+            else:
+                break
         okl = src[0] == "var" and src[1] == vecvar[1]
         ctx.ob(R("SORT-TAINT"), "serialiser: the emitting loop iterates the sorted Vec", okl, fn=key, site=body.site(nb), detail=nshow(src)[:80])
         ctx.ob(R("SORT-TAINT"), "serialiser: the sort dominates the emitting loop", body.dominates(srt["bb"], h), fn=key, site=srt["site"], detail="bb%d -> loop bb%d" % (srt["bb"], h))
@@ -111,6 +116,8 @@ def serializer_obligations(ctx, facts, rule=None, scope="all"):
         return
     # --- HEX-GUARD and separators
     ITEM = ("some", ("call", npath, (it,), nb))
+    ENUM = npath.startswith("<std::iter::Enumerate<")
+    PAIR = ("field", ITEM, "1") if ENUM else ITEM  # enumerate() yields (index, (algorithm, digest))
     out_ok = [r for r in bs["returns"] if r["cls"][0] == "ok"]
     if len(out_ok) != 1:
         raise AnchorError("serialiser: Ok return not unique", key)
@@ -131,6 +138,12 @@ def serializer_obligations(ctx, facts, rule=None, scope="all"):
             return ("lit", models.cchar(e["raw"][1]))
         if p.endswith("::push_str"):
             v = strip_conv(a[1])
+            if v == ("field", PAIR, "0"):
+                return ("alg",)
+            if v == ("field", PAIR, "1"):
+                return ("hex-as-given",)
+            if ENUM:
+                return ("str", nshow(v)[:80])
             if nshow(v).endswith(").0"):
                 return ("alg",)
             if nshow(v).endswith(").1") or ".1 as " in nshow(v) or nshow(v).endswith(".0") and ".1" in nshow(v):
@@ -141,6 +154,19 @@ def serializer_obligations(ctx, facts, rule=None, scope="all"):
             ok = hx[0] == "call" and hx[1] == "std::iter::Iterator::map" and hx[2][0][0] == "call" and hx[2][0][1].endswith("::chars") and ".1" in nshow(hx[2][0][2][0]) and hx[2][1][0] == "closure"
             if ok:
                 ct = norm(facts.body(hx[2][1][1]).resolve_local(0))
+                if ct[0] == "call" and ct[1].endswith("::to_ascii_lowercase") and ct[2] == (("arg", 2),):
+                    return ("hex-lower",)
+            # byte-wise: bytes().map(|b| char::from(b.to_ascii_lowercase())) -- the same text for an all-ASCII digest, which
+            # the hex guard on every emit (HEX-GUARD obligations) establishes
+            okb = hx[0] == "call" and hx[1] == "std::iter::Iterator::map" and hx[2][0][0] == "call" and hx[2][0][1].endswith("::bytes") and ".1" in nshow(hx[2][0][2][0]) and hx[2][1][0] == "closure"
+            if okb:
+                ct = norm(facts.body(hx[2][1][1]).resolve_local(0))
+                if ct[0] == "cast":
+                    ct = ct[2]
+                elif ct[0] == "call" and ct[1].endswith("<impl std::convert::From<u8> for char>::from") and len(ct[2]) == 1:
+                    ct = ct[2][0]
+                else:
+                    ct = ("?",)
                 if ct[0] == "call" and ct[1].endswith("::to_ascii_lowercase") and ct[2] == (("arg", 2),):
                     return ("hex-lower",)
             return ("extend", nshow(hx)[:80])
@@ -161,6 +187,9 @@ def serializer_obligations(ctx, facts, rule=None, scope="all"):
             return "even"
         if c == ("empty", ("Var", acc), False):
             return "acc-nonempty"
+        is_index = ENUM and c[0] == "cmp" and c[3] in (("?", "0"), ("const", 0)) and c[2][0] == "Field" and "Enumerate" in c[2][1] and c[2][1].endswith("::next(%s)).0" % nshow(it))
+        if is_index and (((c[1] in ("Gt", "Ne")) and c[4] is True) or ((c[1] in ("Le", "Eq")) and c[4] is False)):
+            return "acc-nonempty"  # not the first entry (enumerate index > 0): every earlier entry wrote at least its ':'
         if c[0] == "is" and c[2] in ("Borrowed", "Owned"):
             return "variant:" + c[2]
         if c[0] == "isin" and set(c[2]) <= {"Borrowed", "Owned"}:
@@ -204,14 +233,17 @@ def serializer_obligations(ctx, facts, rule=None, scope="all"):
     # every other way out of a loop iteration must be the error return: no `continue` that skips an entry
     rets = dict(models.returns(body))
     skip = []
+    body_emits = set(e["bb"] for e in emits if e["bb"] in body.loops().get(h, set()) and e["_cls"][0] != "lit")
     for gb, c in set((gb, c) for e in emits for gb, c in e["gatoms"]):
-        if c[0] in ("next",) or (c[0] in ("is", "isin") and c[-1] in ("Borrowed", "Owned")) or c == ("empty", ("Var", accn), False):
+        if c[0] in ("next",) or (c[0] in ("is", "isin") and c[-1] in ("Borrowed", "Owned")):
             continue
         for (lab, tg) in body.edges(gb):
-            reach = body.reachable_from(tg, avoid={gb})
-            if any(e["bb"] in reach or e["bb"] == tg for e in emits if any(g == gb for g, _ in e["gatoms"])):
+            # an edge "skips an entry" if the next iteration can be reached from it without passing any emit of the entry's
+            # own text (the separator alone does not count: not emitting ',' before the first entry is the point)
+            if tg in body_emits:
                 continue
-            if h in reach and not any(b in rets for b in body.reachable_from(tg, avoid={gb, h})):
+            free = body.reachable_from(tg, avoid={gb} | body_emits)
+            if h in free and not any(b in rets for b in body.reachable_from(tg, avoid={gb, h} | body_emits)):
                 skip.append((body.site(gb), show_canon(c)[:80]))
     ctx.ob(R("HEX-GUARD"), "no guard inside the loop continues with the next entry without emitting (an entry is emitted or the whole value is refused)", not skip, fn=key, site=site, detail=str(skip))
     return rl
